@@ -1,4 +1,5 @@
 import PyemvGen.Mod.Common
+import PyemvProps.C04
 import PyemvGen.Mod.tools_xor
 import PyemvGen.Mod.tools_adjust
 namespace Pyemv.ModRefines
@@ -9,5 +10,10 @@ theorem kd_derive_visa_sm_sk (mk atc : Bytes) : Gen.kd.derive_visa_sm_sk mk atc 
   simp only [tools_xor, rep_flatten, zeros, tools_adjust, bind, Except.bind, pure, Except.pure]
   repeat (first | rfl | split)
   all_goals simp_all
+
+/-- **C04 (Visa session key) about the translated source** -/
+theorem source_derive_visa_sm_sk (mk atc : Bytes) (hmk : mk.length = 16) (ha : atc.length = 2) :
+    Gen.kd.derive_visa_sm_sk mk atc = .ok (adjustKeyParity (C04.visaFormula mk atc)) := by
+  rw [kd_derive_visa_sm_sk]; exact C04.visa_sk_eq_spec mk atc hmk ha
 
 end Pyemv.ModRefines
